@@ -93,6 +93,19 @@ def snapshot(G, conf, extra_times=()):
             'per_t': per_t, 'stream': stream, 'timelines': tl, 'graph': repr(sorted(G.graph.items(), key=repr))}
 
 
+def light(G, conf, nodes, times):
+    """order-insensitive observable summary of a library-produced graph, for 'observably equal'
+    comparisons between two derived graphs (event/tuple order and, on undirected graphs, endpoint
+    order inside an event are not constrained by any statement)"""
+    P = presence(G, nodes, times)
+    st = sorted((repr(pairkey(G, ev[0], ev[1])), ev[2], ev[3]) for ev in G.stream_interactions())
+    nd = sorted((repr(n), repr(sorted(d.items(), key=repr))) for n, d in G.nodes(data=True))
+    tl = sorted((repr(k), repr(v)) for k, v in timelines(G).items())
+    per = G.interactions_per_snapshots()
+    return {'class': type(G).__name__, 'nodes': nd, 'presence': frozenset(P), 'ids': tuple(G.temporal_snapshots_ids()),
+            'counts': sorted((k, float(v)) for k, v in per.items()), 'stream': st, 'timelines': tl}
+
+
 def snapshot_diff(a, b):
     """names of the components in which two snapshots differ"""
     return [k for k in a if a[k] != b.get(k)]
